@@ -21,7 +21,9 @@ var c10GroupVocab = []string{"container", "a", "ab", "abc", "b", "x", "y", "tier
 type c10Spec struct {
 	Sel     string   `json:"sel"`
 	RangeNs int64    `json:"range"`
-	Kind    string   `json:"kind"` // plain | vec | unwrap
+	Kind    string   `json:"kind"` // plain | vec | unwrap | binop
+	SelB    string   `json:"sel_b,omitempty"`
+	BinOp   string   `json:"bin_op,omitempty"` // + and or unless
 	VecOp   string   `json:"vec_op,omitempty"`
 	Without bool     `json:"without,omitempty"`
 	Labels  []string `json:"labels,omitempty"`
@@ -42,6 +44,8 @@ func (s c10Spec) Query() string {
 		return s.VecOp + grp + " (count_over_time(" + s.Sel + "[" + r + "]))"
 	case "unwrap":
 		return "max_over_time(" + s.Sel + " | unwrap weight [" + r + "])" + grp
+	case "binop":
+		return "sum" + grp + " (count_over_time(" + s.Sel + "[" + r + "])) " + s.BinOp + " sum" + grp + " (count_over_time(" + s.SelB + "[" + r + "]))"
 	}
 	return "count_over_time(" + s.Sel + "[" + r + "])"
 }
@@ -60,9 +64,16 @@ func (propC10) Gen(r *Rng, run uint64, tier string) *Plan {
 	}
 	p.World = GenWorld(r.Sub("world"), spec)
 	sel, _ := genSelection(r.Sub("sel"), &p.World)
-	qs := c10Spec{Sel: sel, RangeNs: rng, Kind: []string{"plain", "vec", "vec", "vec", "unwrap"}[r.Intn(5)]}
+	qs := c10Spec{Sel: sel, RangeNs: rng, Kind: []string{"plain", "vec", "vec", "vec", "unwrap", "binop"}[r.Intn(6)]}
+	if qs.Kind == "binop" {
+		qs.SelB, _ = genSelection(r.Sub("selB"), &p.World)
+		qs.BinOp = []string{"+", "and", "or", "unless"}[r.Intn(4)]
+	}
 	if qs.Kind != "plain" {
 		qs.VecOp = []string{"sum", "sum", "count", "max", "min"}[r.Intn(5)]
+		if qs.Kind == "binop" {
+			qs.VecOp = "sum"
+		}
 		qs.Without = r.Bool(0.4)
 		seen := map[string]bool{}
 		for k := 1 + r.Intn(3); k > 0; k-- {
@@ -71,6 +82,9 @@ func (propC10) Gen(r *Rng, run uint64, tier string) *Plan {
 				seen[l] = true
 				qs.Labels = append(qs.Labels, l)
 			}
+		}
+		if qs.Kind == "binop" && len(qs.Labels) == 0 {
+			qs.Labels = []string{"container"}
 		}
 		if qs.Kind == "unwrap" && qs.Without {
 			// without(...) on an unwrap range keeps the unwrapped label itself in
@@ -114,24 +128,18 @@ func project(labels map[string]string, spec c10Spec) map[string]string {
 	return out
 }
 
-func fmtVal(v float64) string { return strconv.FormatFloat(v, 'f', -1, 64) }
+type c10Val struct {
+	labels map[string]string
+	v      float64
+}
 
-func (propC10) Check(t *testing.T, p *Plan, st *Stats) *Violation {
-	var spec c10Spec
-	mustUnJSON(p.Tags["spec"], &spec)
-	viol := func(vi int, clause, exp, obs string) *Violation {
-		return &Violation{Property: "C10", Clause: clause, Expected: exp, Observed: obs, Detail: fmt.Sprintf("variant %d, query %s", vi, p.Query)}
-	}
-	if !parses(p.Query) {
-		if st != nil {
-			st.Skipped++
-		}
-		return nil
-	}
+// c10Side computes, from the log path's view of the same samples, the vector
+// the query (or one operand of a binary operation) must produce at every step.
+func c10Side(t *testing.T, p *Plan, spec c10Spec, sel string, steps []int64, st *Stats) (map[int64]map[string]c10Val, int, map[int64]int, *Violation) {
 	// Reference partition: the same world through the log path, which keys
 	// streams by a sorted, quoted rendering of the label set.
 	ref := *p
-	ref.Query = spec.Sel
+	ref.Query = sel
 	ref.Params = Params{Start: p.Params.Start - spec.RangeNs - sec, End: p.Params.End, StepNs: sec, Limit: -1}
 	if ref.Params.Start == ref.Params.End {
 		ref.Params.End++
@@ -143,7 +151,7 @@ func (propC10) Check(t *testing.T, p *Plan, st *Stats) *Violation {
 		st.NoteOutcome(ro)
 	}
 	if ro.Bad() || ro.Failed || ro.Result == nil || ro.Result.Type != "streams" {
-		return viol(-1, "C10(reference-run)", "the log query "+spec.Sel+" succeeds", ro.ErrClass()+" "+clip(ro.ErrText+ro.Panic, 300))
+		return nil, 0, nil, &Violation{Property: "C10", Clause: "C10(reference-run)", Expected: "the log query " + sel + " succeeds", Observed: ro.ErrClass() + " " + clip(ro.ErrText+ro.Panic, 300)}
 	}
 	type ent struct {
 		labels map[string]string
@@ -155,30 +163,16 @@ func (propC10) Check(t *testing.T, p *Plan, st *Stats) *Violation {
 			ents = append(ents, ent{s.Labels, int64(e.T)})
 		}
 	}
-	// Expected series.
-	step := p.Params.StepNs
-	var steps []int64
-	if p.Tags["instant"] == "1" || step == 0 {
-		steps = []int64{p.Params.Start}
-	} else {
-		for T := p.Params.Start; T <= p.Params.End; T += step {
-			steps = append(steps, T)
-		}
-	}
-	type series struct {
+	type innerT struct {
 		labels map[string]string
-		points []CPoint
+		n      int
+		max    float64
+		has    bool
 	}
-	exp := map[string]*series{}
+	out := map[int64]map[string]c10Val{}
 	totals := map[int64]int{}
 	for _, T := range steps {
-		// inner series (full label sets) in the window
-		inner := map[string]*struct {
-			labels map[string]string
-			n      int
-			max    float64
-			has    bool
-		}{}
+		inner := map[string]*innerT{}
 		for _, e := range ents {
 			if !(e.ts > T-spec.RangeNs && e.ts <= T) {
 				continue
@@ -196,12 +190,7 @@ func (propC10) Check(t *testing.T, p *Plan, st *Stats) *Violation {
 				k := RenderLabels(lbl)
 				in := inner[k]
 				if in == nil {
-					in = &struct {
-						labels map[string]string
-						n      int
-						max    float64
-						has    bool
-					}{labels: lbl}
+					in = &innerT{labels: lbl}
 					inner[k] = in
 				}
 				f, _ := strconv.ParseFloat(w, 64)
@@ -215,34 +204,23 @@ func (propC10) Check(t *testing.T, p *Plan, st *Stats) *Violation {
 			k := RenderLabels(lbl)
 			in := inner[k]
 			if in == nil {
-				in = &struct {
-					labels map[string]string
-					n      int
-					max    float64
-					has    bool
-				}{labels: lbl}
+				in = &innerT{labels: lbl}
 				inner[k] = in
 			}
 			in.n++
 			totals[T]++
 		}
-		tsec := float64(T/1_000_000) / 1000
+		vec := map[string]c10Val{}
 		switch spec.Kind {
 		case "plain", "unwrap":
-			for _, k := range sortedKeys(inner) {
-				in := inner[k]
-				s := exp[k]
-				if s == nil {
-					s = &series{labels: in.labels}
-					exp[k] = s
-				}
+			for k, in := range inner {
 				v := float64(in.n)
 				if spec.Kind == "unwrap" {
 					v = in.max
 				}
-				s.points = append(s.points, CPoint{T: tsec, V: fmtVal(v)})
+				vec[k] = c10Val{in.labels, v}
 			}
-		case "vec":
+		case "vec", "binop":
 			type grp struct {
 				labels             map[string]string
 				sum, cnt, max, min float64
@@ -267,16 +245,104 @@ func (propC10) Check(t *testing.T, p *Plan, st *Stats) *Violation {
 					g.min = v
 				}
 			}
-			for _, gk := range sortedKeys(groups) {
-				g := groups[gk]
-				s := exp[gk]
-				if s == nil {
-					s = &series{labels: g.labels}
-					exp[gk] = s
-				}
-				v := map[string]float64{"sum": g.sum, "count": g.cnt, "max": g.max, "min": g.min}[spec.VecOp]
-				s.points = append(s.points, CPoint{T: tsec, V: fmtVal(v)})
+			for gk, g := range groups {
+				vec[gk] = c10Val{g.labels, map[string]float64{"sum": g.sum, "count": g.cnt, "max": g.max, "min": g.min}[spec.VecOp]}
 			}
+		}
+		out[T] = vec
+	}
+	return out, len(ents), totals, nil
+}
+
+func fmtVal(v float64) string { return strconv.FormatFloat(v, 'f', -1, 64) }
+
+func (propC10) Check(t *testing.T, p *Plan, st *Stats) *Violation {
+	var spec c10Spec
+	mustUnJSON(p.Tags["spec"], &spec)
+	viol := func(vi int, clause, exp, obs string) *Violation {
+		return &Violation{Property: "C10", Clause: clause, Expected: exp, Observed: obs, Detail: fmt.Sprintf("variant %d, query %s", vi, p.Query)}
+	}
+	if !parses(p.Query) {
+		if st != nil {
+			st.Skipped++
+		}
+		return nil
+	}
+	step := p.Params.StepNs
+	var steps []int64
+	if p.Tags["instant"] == "1" || step == 0 {
+		steps = []int64{p.Params.Start}
+	} else {
+		for T := p.Params.Start; T <= p.Params.End; T += step {
+			steps = append(steps, T)
+		}
+	}
+	type series struct {
+		labels map[string]string
+		points []CPoint
+	}
+	exp := map[string]*series{}
+	totals := map[int64]int{}
+	nEnts := 0
+	emit := func(T int64, vec map[string]c10Val) {
+		tsec := float64(T/1_000_000) / 1000
+		for _, k := range sortedKeys(vec) {
+			s := exp[k]
+			if s == nil {
+				s = &series{labels: vec[k].labels}
+				exp[k] = s
+			}
+			s.points = append(s.points, CPoint{T: tsec, V: fmtVal(vec[k].v)})
+		}
+	}
+	left, n1, tot1, v := c10Side(t, p, spec, spec.Sel, steps, st)
+	if v != nil {
+		return v
+	}
+	nEnts, totals = n1, tot1
+	if spec.Kind == "binop" {
+		right, n2, _, v := c10Side(t, p, spec, spec.SelB, steps, st)
+		if v != nil {
+			return v
+		}
+		nEnts += n2
+		for _, T := range steps {
+			l, r := left[T], right[T]
+			out := map[string]c10Val{}
+			switch spec.BinOp {
+			case "+":
+				for k, lv := range l {
+					if rv, ok := r[k]; ok {
+						out[k] = c10Val{lv.labels, lv.v + rv.v}
+					}
+				}
+			case "and":
+				for k, lv := range l {
+					if _, ok := r[k]; ok {
+						out[k] = lv
+					}
+				}
+			case "unless":
+				for k, lv := range l {
+					if _, ok := r[k]; !ok {
+						out[k] = lv
+					}
+				}
+			case "or":
+				for k, lv := range l {
+					out[k] = lv
+				}
+				for k, rv := range r {
+					if _, ok := l[k]; !ok {
+						out[k] = rv
+					}
+				}
+			}
+			emit(T, out)
+		}
+	} else {
+		for _, T := range steps {
+			emit(T, left[T])
 		}
 	}
 	var expSeries []CSeries
@@ -355,10 +421,11 @@ func (propC10) Check(t *testing.T, p *Plan, st *Stats) *Violation {
 			st.ProbeIf(multi, "several_samples_share_a_label_set")
 			st.ProbeIf(len(expSeries) >= 2, "several_series")
 			st.ProbeIf(len(expSeries) == 0, "empty_result")
-			if len(ents) >= 2 {
+			if nEnts >= 2 {
 				lbls := append([]string(nil), spec.Labels...)
 				sort.Strings(lbls)
-				st.Signature(fmt.Sprintf("%s|%s|%v|%v|inst=%s|series=%d|ents=%d", spec.Kind, spec.VecOp, spec.Without, lbls, p.Tags["instant"], len(expSeries), len(ents)))
+				st.Probe("kind_" + spec.Kind + spec.BinOp)
+			st.Signature(fmt.Sprintf("%s%s|%s|%v|%v|inst=%s|series=%d|ents=%d", spec.Kind, spec.BinOp, spec.VecOp, spec.Without, lbls, p.Tags["instant"], len(expSeries), nEnts))
 			}
 		}
 	}
